@@ -156,11 +156,27 @@ func (f *fileStorage) fileForRead(key string) (*os.File, error) {
 // removeInvalidFileNameCharacters returns the file name for a key.
 // A colon is not valid in file names on every system and is escaped (and so is the escape
 // character), so that keys which differ only in colons are stored in different files.
+// A path separator, a leading dot and the empty key are escaped too: every key is stored in
+// a file of its own inside the directory of the storage – no key names the directory itself,
+// its parent, a file somewhere else or a temporary file.
 func removeInvalidFileNameCharacters(fname string) string {
-	return strings.NewReplacer("%", "%25", ":", "%3A").Replace(fname)
+	if fname == "" {
+		return emptyKeyFileName
+	}
+	name := strings.NewReplacer("%", "%25", ":", "%3A", "/", "%2F").Replace(fname)
+	if name[0] == '.' {
+		name = "%2E" + name[1:]
+	}
+	return name
 }
+
+// emptyKeyFileName is the name of the file for the empty key
+const emptyKeyFileName = "%00"
 
 // keyForFileName returns the key which is stored in a file
 func keyForFileName(fname string) string {
-	return strings.NewReplacer("%3A", ":", "%25", "%").Replace(fname)
+	if fname == emptyKeyFileName {
+		return ""
+	}
+	return strings.NewReplacer("%3A", ":", "%2F", "/", "%2E", ".", "%25", "%").Replace(fname)
 }
